@@ -198,6 +198,13 @@ func (w *World) genVCs(fn *ssa.Function, useH bool, dropped, hcount map[string]b
 				continue
 			}
 			f := c.evalBool(penv, en.Expr, en.Text)
+			if cj := splitAnd(f); len(cj) > 1 && len(cj) <= 80 {
+				// a top-level conjunction is split so that the failing member is named and gets its own model
+				for j, g := range cj {
+					c.obligeProps("ensures", fmt.Sprintf("%d.%d", k, j), rr, g, fn.Pos(), fmt.Sprintf("conjunct %d of: %s", j, en.Text), en.Props)
+				}
+				continue
+			}
 			c.obligeProps("ensures", fmt.Sprintf("%d", k), rr, f, fn.Pos(), en.Text, en.Props)
 		}
 		if ct.HasMod {
@@ -442,4 +449,40 @@ func (w *World) verifyFn(fn *ssa.Function, sv *Solver, tier string) *FnResult {
 		}
 	}
 	return res
+}
+
+// splitAnd splits a top-level SMT conjunction "(and a b c)" into its conjuncts.
+func splitAnd(f string) []string {
+	if !strings.HasPrefix(f, "(and ") || !strings.HasSuffix(f, ")") {
+		return []string{f}
+	}
+	body := f[5 : len(f)-1]
+	var out []string
+	d := 0
+	start := 0
+	for i := 0; i < len(body); i++ {
+		switch body[i] {
+		case '(':
+			d++
+		case ')':
+			d--
+			if d < 0 {
+				return []string{f}
+			}
+		case ' ':
+			if d == 0 {
+				if i > start {
+					out = append(out, body[start:i])
+				}
+				start = i + 1
+			}
+		}
+	}
+	if start < len(body) {
+		out = append(out, body[start:])
+	}
+	if d != 0 {
+		return []string{f}
+	}
+	return out
 }
